@@ -1261,3 +1261,13 @@ def c19_k(ctx):
     ctx.check(okk, er, 'region arguments reach the box builder', '_build_boxes(**region_args)',
               'the box builder is not called with the region arguments', fn=er,
               node=bc[0] if bc else er.node)
+
+
+@obligation('C19-l', 'T2', 'no result buffer takes the dtype of a caller\'s array and then receives '
+            'computed values (shared sweep of C08-l, restricted to the modules this property is '
+            'anchored in; `*_like(x)` and `dtype=x.dtype` allocations)', floor=1,
+            necessary='region samples and weights are stored as computed (numpy truncates floats silently when they are assigned into an '
+                      'integer array)')
+def c19_dtype(ctx):
+    from .base import inherited_dtype_obligation
+    inherited_dtype_obligation(ctx, ['elfi.methods.inference.romc', 'elfi.methods.posteriors'])
